@@ -146,6 +146,11 @@ def run(corrupt=None):
         r4 = tlc.run_tlc("c16_n4", "SummariesCons4", tlc.cfg_text(constants={"N": 4, "KeepClade": "TRUE"}, invariants=["LaminarInv", "NoCollision"]), timeout=6000)
         tlc.require_ok(r4, "SummariesCons4")
         ck.add_tlc("SummariesCons4: all triples of forests on 4 points (laminar, no collision)", r4)
+    # weighted mode with revisited topologies (same tree recorded several times with different scores): forests on 2 points
+    rw = tlc_instances(ck, "c16_weighted3", 2, False, 3, 3, True)
+    tlc.require_ok(rw, "c16_weighted3")
+    ck.add_tlc("SummariesCons N=2 trees<=3 mult<=3 weighted (revisited topologies)", rw)
+    revisit = [x for x in rw.json_prints if len(x["trees"]) == 3]
     rnd = random.Random(ck.seed)
     if not thorough:
         big = [x for x in recs if len(x["trees"]) >= 2]
@@ -172,14 +177,16 @@ def run(corrupt=None):
     special = extra_instances(ck)
     workdir = env.scratch("c16_files")
     sample = rnd.sample(recs, min(len(recs), 150 if not thorough else 1500))
-    ftasks = list(enumerate(sample))
+    rv = revisit if thorough else rnd.sample(revisit, min(len(revisit), 500))
+    ftasks = [(i, rec, n) for i, rec in enumerate(sample)] + [(10000 + i, rec, 2) for i, rec in enumerate(rv)]
 
     def ftask(arg):
-        i, rec = arg
-        return file_route(rec, i, n, workdir)
+        i, rec, nn = arg
+        return file_route(rec, i, nn, workdir)
 
-    for (i, rec), probs in zip(ftasks, kernels.parallel_map(ftask, ftasks, chunksize=8)):
+    for (i, rec, _nn), probs in zip(ftasks, kernels.parallel_map(ftask, ftasks, chunksize=8)):
         ck.evaluations += 1
+        ck.traces_validated += 1
         for sig, msg, rep in probs:
             ck.violation(sig, msg, rep)
     shutil.rmtree(workdir, ignore_errors=True)
